@@ -705,6 +705,18 @@ def worker(job):
         out['stats'] = core.STATS.as_dict()
         out['wall'] = time.time() - t0
         return out
+    if prop == 'C07':
+        # the sixth target: the emitted Wireshark script must be a Lua program (own parser with Lua's scoping rules - no Lua
+        # interpreter exists in the image); a script that does not parse is "code that does not build" like any other reject
+        try:
+            from .fe_lua import LuaFE
+            lfe = LuaFE(spec, e)
+            if lfe.rejects:
+                out['rejects']['lua'] = lfe.rejects
+            else:
+                out['functions']['lua'] = len(lfe.functions_encoded)
+        except Unsupported as u:
+            out['inconclusive'].append(('lua', 'front-end: %s' % str(u)[:160]))
     # Go, Rust and Java write one file per packet, named after the packet: when two packets of the program (inline objects
     # included) map to the same file name, which one survives depends on Go's map iteration order (C13's subject), so the
     # emitted code - and everything said about it - would change from run to run.  Those cells carry no claim.
